@@ -18,7 +18,6 @@ import (
 	"verifh/vh"
 )
 
-const sigUpper = "id-decode-uppercase-hex"
 
 type jstep struct {
 	Tlo uint64 `json:"clock_before_ms"`
@@ -89,7 +88,7 @@ func isHex(c byte) bool {
 	return c >= '0' && c <= '9' || c >= 'a' && c <= 'f' || c >= 'A' && c <= 'F'
 }
 
-// shape of the known finding: exactly 16 hex digits, at least one of them upper-case.
+// shape of the repaired finding id-decode-uppercase-hex: exactly 16 hex digits, at least one upper-case.
 func upperHexShape(b []byte) bool {
 	if len(b) != 16 {
 		return false
@@ -198,9 +197,8 @@ func runDec(w *vh.W, c *jcase) {
 		rs[i] = optN(r.OK, r.Value)
 	}
 	sig := ""
-	if upperHexShape(b) {
-		sig = sigUpper
-		w.Count("dec_shape", "16 hex with upper-case (known finding shape)")
+	if upperHexShape(b) { // former finding id-decode-uppercase-hex (fixed): no longer tolerated
+		w.Count("dec_shape", "16 hex with upper-case (must be rejected)")
 	} else if len(b) == 16 {
 		w.Count("dec_shape", "16 bytes other")
 	} else {
